@@ -3,6 +3,7 @@ package circl
 
 import (
 	"crypto/cipher"
+	"errors"
 	"io"
 
 	bls12381 "github.com/cloudflare/circl/ecc/bls12381"
@@ -18,7 +19,15 @@ type G1Elt struct{ inner bls12381.G1 }
 func (p *G1Elt) MarshalBinary() (data []byte, err error) { return p.inner.BytesCompressed(), nil }
 
 // UnmarshalBinary populates the point from a compressed point representation.
-func (p *G1Elt) UnmarshalBinary(data []byte) error { return p.inner.SetBytes(data) }
+func (p *G1Elt) UnmarshalBinary(data []byte) error {
+	// Only the compressed form is accepted. Without this check the backend
+	// takes a cleared compression bit as a request to read twice as many
+	// bytes and slices past the end of the buffer.
+	if len(data) != bls12381.G1SizeCompressed || data[0]&0x80 == 0 {
+		return errors.New("bls12381: not a compressed G1 point")
+	}
+	return p.inner.SetBytes(data)
+}
 
 func (p *G1Elt) String() string { return p.inner.String() }
 
